@@ -19,7 +19,7 @@ The connection layer below the protocol (`TcpConnection`) is the boundary: its e
 `disableBegin` = `disconnect()` setting `_disconnecting = True`; `disableEnd` = the receiver thread of the connection
 running the close sequence (`on_disconnecting; on_disconnected`) and `disconnect()` clearing the flag.
 Frames arrive only while the connection is up (bytes that arrive between accept and `_on_connected` are the subject of
-`Model.Hsms.Race`).
+`Model.Hsms.Race`); a data block received earlier and still queued for dispatch is the input `rxDataQueued`.
 
 `Defects` selects the variant: `Defects.code` is the code as shipped (F-4: any Select.rsp / Deselect.rsp performs the
 transition; F-5: Separate.req is not handled); `Defects.none` is the code with proposals C05-select-rsp-unchecked and
@@ -103,12 +103,17 @@ inductive In
   | connect | peerClose | disableBegin | disableEnd
   | rxCtrl (st : SType) (sys : Int) (status : Int)                          -- status = header byte 3
   | rxData (stream function : Int) (w : Bool) (sys : Int) (decodable : Bool) -- decodable = catalogued and body decodes
+  | rxDataQueued (stream function : Int) (w : Bool) (sys : Int) (decodable : Bool)
+      -- a data block that was already in the dispatch queue (behind a busy handler) is dispatched NOW, whatever has happened to the
+      -- connection since it was received: the dispatcher thread is not stopped by a close, so this also happens while NOT CONNECTED
   | apiSelect | apiDeselect | apiLinktest                                     -- `send_select_req()` … called by the application / the select thread
   | timeoutT6 (sys : Int)                                                     -- the requester waiting on `sys` gives up
 deriving DecidableEq, Repr
 
 inductive Out
   | tx (stype : Int) (sys : Int) (b2 b3 : Int)     -- a frame written to the connection: SType, system bytes, header bytes 2 and 3
+  | txBlocked (stype : Int) (sys : Int) (b2 b3 : Int)  -- a frame put into the send queue while no receiver thread runs (NOT CONNECTED):
+                                                    -- nothing is written, the sending (dispatcher) thread blocks in `send_message`
   | deliverApp (sys : Int)                          -- `message_received` event
   | deliverWaiter (sys : Int)                       -- put on the response queue of the requester waiting on `sys`
   | evt (name : String)                             -- `connected` / `disconnected` / `communicating` event
@@ -257,6 +262,13 @@ def handleData (s : St) (function sys : Int) : St × List Out :=
   else if function % 2 = 0 ∧ isOpen s sys = true then (closeSys s sys, [.deliverWaiter sys])
   else (s, [.deliverApp sys])
 
+/-- the same branch for a block dispatched from the queue: the gate is evaluated at dispatch time.  While NOT CONNECTED the state is
+"not SELECTED" as well: the Reject.req goes into the send queue of a connection that no longer exists (what happens to it when a
+connection returns is the subject of C06/C09; this model does not follow the send queue across a reconnect) — nothing is delivered. -/
+def handleDataQueued (s : St) (function sys : Int) : St × List Out :=
+  if s.conn = .notConnected then (s, [.txBlocked SType.rejectReq.code sys Gen.HsmsSType.DATA_MESSAGE 4])
+  else handleData s function sys
+
 /-! ## the step function -/
 
 def step (d : Defects) (s : St) : In → St × List Out
@@ -272,6 +284,7 @@ def step (d : Defects) (s : St) : In → St × List Out
     if s.conn = .notConnected then (s, []) else handleCtrl d s st sys status
   | .rxData _ function _ sys _ =>
     if s.conn = .notConnected then (s, []) else handleData s function sys
+  | .rxDataQueued _ function _ sys _ => handleDataQueued s function sys
   | .apiSelect => if s.conn = .notConnected then (s, []) else sendReq s .select
   | .apiDeselect => if s.conn = .notConnected then (s, []) else sendReq s .deselect
   | .apiLinktest => if s.conn = .notConnected then (s, []) else sendReq s .linktest
